@@ -7,18 +7,34 @@ use std::io::Write;
 use crate::error::Result;
 use super::resp::RespFrame;
 
+/// Write the payload of a simple string or error. These are line-oriented
+/// types that cannot carry CR or LF: such bytes (e.g. copied from client input
+/// into an error message) are replaced by spaces, so that request content can
+/// never change the framing of replies.
+fn write_line_payload<W: Write>(bytes: &[u8], writer: &mut W) -> Result<()> {
+    if !bytes.iter().any(|&b| b == b'\r' || b == b'\n') {
+        writer.write_all(bytes)?;
+    } else {
+        let cleaned: Vec<u8> = bytes.iter()
+            .map(|&b| if b == b'\r' || b == b'\n' { b' ' } else { b })
+            .collect();
+        writer.write_all(&cleaned)?;
+    }
+    Ok(())
+}
+
 /// Serialize a RESP frame to a writer
 pub fn serialize_resp_frame<W: Write>(frame: &RespFrame, writer: &mut W) -> Result<()> {
     match frame {
         RespFrame::SimpleString(bytes) => {
             writer.write_all(b"+")?;
-            writer.write_all(bytes)?;
+            write_line_payload(bytes, writer)?;
             writer.write_all(b"\r\n")?;
         }
         
         RespFrame::Error(bytes) => {
             writer.write_all(b"-")?;
-            writer.write_all(bytes)?;
+            write_line_payload(bytes, writer)?;
             writer.write_all(b"\r\n")?;
         }
         
